@@ -38,8 +38,8 @@ CHECKS = {
    text="Exploration over schedules: for each generated (trace, workers 1..16, batch, timeout, queue >= trace) scenario several scheduler seeds x iterations are executed; dispatcher, workers (real worker_loop code incl. batching, timeout and disconnect branches) and collector interleave at every atomic, channel, mutex and spawn operation. Results must equal the sequential analyzer's as a multiset and keep per-connection (TCP: per-sending-host) order; a Dropped outcome with sufficient queues is itself a violation.",
    note="shuttle explores sequentially consistent interleavings only; the model channel's timeouts fire only on an empty queue (abstract time) with a bounded budget per receiver. Three scenarios in four drive WorkerPool::dispatch directly and drain by dropping the pool; one in four goes through the analyzer's own parallel packet loop (with_config + init_pool + process_with via H3), including TCP's shutdown-at-end-of-input. The simulated wall clock is frozen during an execution.",
    design="4/C10"),
- "C11": dict(engine="netsim", technique="deterministic simulation with a counting allocator as cost oracle: long never-fingerprinting connections (endless HTTP heads, binary after SYN, oversized/unfinished TLS records, application data after a non-hello record, random bytes) in parallel on one analyzer, and populations of thousands of short complete connections with distinct recurring values on an analyzer of capacity 1..4, simulated clock advancing past the TTLs; allocation and live-heap sampled around every delivered packet",
-   text="Exploration: per delivered segment the bytes allocated while handling it and the heap bytes live after it are compared with fixed bounds (live <= connections x 512 KiB + 1 MiB; per packet <= 4 MiB + 64 x packet length; median of a connection's last tenth <= 2 x first tenth + 2 MiB). Quick: up to 2000 segments per connection; thorough: up to 100000. Capacities 1/4/64/1000, 1..12 parallel connections, segment sizes 1..1460.",
+ "C11": dict(engine="netsim+poolsim", technique="deterministic simulation with a counting allocator as cost oracle: long never-fingerprinting connections (endless HTTP heads, binary after SYN, oversized/unfinished TLS records, application data after a non-hello record, random bytes) in parallel on one analyzer, and populations of thousands of short complete connections with distinct recurring values on an analyzer of capacity 1..4, simulated clock advancing past the TTLs; allocation and live-heap sampled around every delivered packet; poolsim part: the real worker pools under shuttle with every worker stalled (fault 'stalled node') while queue_size + k frames are handed over, queue sizes 1..100000",
+   text="Exploration: per delivered segment the bytes allocated while handling it and the heap bytes live after it are compared with fixed bounds (live <= connections x 512 KiB + 1 MiB; per packet <= 4 MiB + 64 x packet length; median of a connection's last tenth <= 2 x first tenth + 2 MiB). Quick: up to 2000 segments per connection; thorough: up to 100000. Capacities 1/4/64/1000, 1..12 parallel connections, segment sizes 1..1460. Pool part: the depth of every worker queue (stats()) never exceeds the configured queue size while the workers are stalled, exactly the overflow is dropped and counted, and the queues drain afterwards.",
    note="Constants are fixed in c11.rs and deliberately loose; they were revised (from 128 KiB / 256 KiB, then 2 MiB) after measuring the parsers' constant factor (17x..21x the buffered bytes in temporaries) and per-segment bookkeeping, before the repair was written - see DESIGN. Work is measured as bytes allocated, a proxy for time that is deterministic; CPU time is not measured.",
    design="4/C11"),
  "C15": dict(engine="netsim+poolsim", technique="deterministic simulation: seeded traces of well-formed and malformed frames (Ethernet/raw/NULL 0x1e/AF loopback framing incl. other platforms' family words in both byte orders, IPv4 IHL 0..15, total-length/protocol/ethertype/version lies, truncation) x generated FilterConfigs; filtered run vs unfiltered run on the admitted sub-trace at the same simulated times",
